@@ -115,8 +115,18 @@ func lenBucket(n int) string {
 }
 
 func genLen(allowLarge bool) int {
-	a, b, c := hx.G(4), hx.G(len(boundaryLens)), hx.G(1<<16)
+	a, b, c := hx.G(5), hx.G(len(boundaryLens)), hx.G(1<<16)
 	switch a {
+	case 4: // around a power of two (thresholds of fast paths, buffer sizes) or a typical MSS
+		k := 5 + c%13 // 2^5 .. 2^17
+		l := 1<<uint(k) + (c>>4)%3 - 1
+		if (c>>8)%7 == 0 {
+			l = 1460 + (c>>4)%3 - 1
+		}
+		if l >= 0xFFFF && !allowLarge {
+			return c % 40
+		}
+		return l
 	case 0:
 		l := boundaryLens[b]
 		if l >= 0xFFFF && !allowLarge {
